@@ -53,6 +53,7 @@ func exploreE2(c *Ctx, sys E2Sys, depth int, sitePrefix string) {
 					u.Eval(1)
 					k := inst.Key()
 					u.State(k)
+					u.DistinctH(hash64(k))
 					if !seen[k] {
 						seen[k] = true
 						frontier = append(frontier, hist{first})
@@ -89,6 +90,7 @@ func exploreE2(c *Ctx, sys E2Sys, depth int, sitePrefix string) {
 						u.Eval(1)
 						k := inst.Key()
 						u.State(k)
+						u.DistinctH(hash64(k))
 						if !seen[k] {
 							seen[k] = true
 							next = append(next, h2)
